@@ -390,7 +390,7 @@ func c09Pairing(c *Check, sp *ssa.Package) []string {
 		if init := sp.Func("init"); init != nil {
 			type row struct {
 				suffix, codec, pos string
-				have          int
+				have               int
 			}
 			rows := map[string]*row{} // by element address
 			var order []string
@@ -622,6 +622,32 @@ func c09PostProcess(c *Check) {
 		}
 	}
 	if post == nil {
+		// by role: the function of the package that is handed the shared listener's
+		// module (and nothing else of the listener) by the parse function, one of
+		// its steps or a closure of them — the largest such function
+		for _, f := range p.RepoFuncs() {
+			if fnPkgPath(f) != repoMod+"/pkg/parse" {
+				continue
+			}
+			eachCall(f, func(cl ssa.CallInstruction) {
+				sc := staticCallee(cl)
+				if sc == nil || fnPkgPath(sc) != repoMod+"/pkg/parse" || sc.Parent() != nil || len(sc.Blocks) == 0 {
+					return
+				}
+				for _, a := range cl.Common().Args {
+					if !typeIs(a.Type(), syslPkg, "Module") {
+						continue
+					}
+					if own, _, _, ok := loadedField(a); ok && own != nil && own.Obj().Name() == "TreeShapeListener" {
+						if post == nil || len(sc.Blocks) > len(post.Blocks) {
+							post = sc
+						}
+					}
+				}
+			})
+		}
+	}
+	if post == nil {
 		c.Undecidedf("IMPORT-POSTPROCESS", "postProcess", "-", "post-processing function not found: unresolved anchor")
 		return
 	}
@@ -709,7 +735,8 @@ func c09PostProcess(c *Check) {
 			walked, handedOn := false, false
 			mi := moduleResultIndex(f.Signature)
 			_, fld, base, isF := loadedField(vals[mi])
-			if !isF || fld != "module" {
+			_ = fld
+			if own, _, _, _ := loadedField(vals[mi]); !isF || own == nil || own.Obj().Name() != "TreeShapeListener" {
 				base = nil
 			}
 			related := func(a ssa.Value) bool {
